@@ -29,35 +29,37 @@ def qlit(fr):
     return '(%d#%d)' % (fr.numerator, fr.denominator) if fr >= 0 else '(-(%d#%d))' % (-fr.numerator, fr.denominator)
 
 
-def gen_case(rng, i):
-    a, b = number(rng), number(rng)
-    r = rng.random()
-    if r < 0.3:
-        b = a
-    ua, ub = rng.choice(UNITS), rng.choice(UNITS)
+def gen_guard(rng, a_sym='@a', b_sym='@b'):
+    """guard structure with symbolic operands: returns (text, chains) where operands are ('a'|'b'|Fraction)"""
     nch = rng.choice([1, 1, 1, 2, 2, 3])
     chains, text_chains = [], []
-    ncond = 0
     for _ in range(nch):
         ch, tch = [], []
         for _ in range(rng.choice([1, 1, 2, 2, 3])):
             neg = rng.random() < 0.3
             op = rng.choice(OPS)
+
             def operand():
                 k = rng.random()
                 if k < 0.4:
-                    return '@a', a
+                    return a_sym, 'a'
                 if k < 0.7:
-                    return '@b', b
-                v = rng.choice([a, b, number(rng)])
+                    return b_sym, 'b'
+                v = number(rng)
                 return fmt_dec(v) + rng.choice(UNITS), v
             (xt, xv), (yt, yv) = operand(), operand()
             ch.append((neg, xv, op, yv))
             tch.append('%s(%s %s %s)' % ('not ' if neg else '', xt, op, yt))
-            ncond += 1
         chains.append(ch); text_chains.append(' and '.join(tch))
-    guard_text = ', '.join(text_chains)
-    less = '.m%d(@a, @b) when %s { width: yes }\n.c%d { .m%d(%s%s, %s%s); }\n' % (i, guard_text, i, i, fmt_dec(a), ua, fmt_dec(b), ub)
+    return ', '.join(text_chains), chains
+
+
+def instantiate(chains, a, b):
+    sub = lambda v: a if v == 'a' else (b if v == 'b' else v)
+    return [[(neg, sub(x), op, sub(y)) for (neg, x, op, y) in ch] for ch in chains]
+
+
+def terms(chains):
     items, spec = [], []
     for ci, ch in enumerate(chains):
         if ci:
@@ -69,11 +71,41 @@ def gen_case(rng, i):
             items.append('GC (MkCond %s %s %s %s)' % ('true' if neg else 'false', qlit(xv), coqrun.coq_str(op), qlit(yv)))
             sc.append('SCond %s %s %s %s' % ('true' if neg else 'false', qlit(xv), COP[op], qlit(yv)))
         spec.append('[' + '; '.join(sc) + ']')
-    model = '(parse_guards [%s])' % '; '.join(items)
-    specterm = '(Some (guard_true [%s]))' % '; '.join(spec)
-    truth = any(all((PY[op](xv, yv)) != neg for (neg, xv, op, yv) in ch) for ch in chains)
-    return {'less': less, 'model': model, 'spec': specterm, 'nontrivial': ncond >= 2 or any(c[0] for ch in chains for c in ch),
-            'key': (guard_text, str(a) + ua, str(b) + ub), 'nch': nch, 'ncond': ncond, 'py_truth': truth}
+    return '(parse_guards [%s])' % '; '.join(items), '(Some (guard_true [%s]))' % '; '.join(spec)
+
+
+def gen_case(rng, i):
+    """one guarded mixin, 1-3 call sites with different argument values; the arguments are literals, block-local
+    variables of the SAME name in every caller, or forwarded through a wrapper mixin"""
+    guard_text, chains = gen_guard(rng)
+    style = rng.choice(['literal', 'literal', 'localvar', 'wrapper'])
+    less = '.m%d(@a, @b) when %s { width: yes }\n' % (i, guard_text)
+    if style == 'wrapper':
+        less += '.w%d(@p, @q) { .m%d(@p, @q); }\n' % (i, i)
+    callers = []
+    pairs = []
+    for k in range(rng.choice([1, 2, 3])):
+        a, b = number(rng), number(rng)
+        if rng.random() < 0.3:
+            b = a
+        if k and rng.random() < 0.5:      # opposite side of whatever the guard compares
+            a, b = -pairs[0][0], pairs[0][1] + rng.choice([-1, 0, 1])
+        pairs.append((a, b))
+        ua, ub = rng.choice(UNITS), rng.choice(UNITS)
+        rule = 'c%d_%d' % (i, k)
+        if style == 'literal':
+            less += '.%s { .m%d(%s%s, %s%s); }\n' % (rule, i, fmt_dec(a), ua, fmt_dec(b), ub)
+        elif style == 'localvar':
+            less += '.%s { @p: %s%s; @q: %s%s; .m%d(@p, @q); }\n' % (rule, fmt_dec(a), ua, fmt_dec(b), ub, i)
+        else:
+            less += '.%s { .w%d(%s%s, %s%s); }\n' % (rule, i, fmt_dec(a), ua, fmt_dec(b), ub)
+        inst = instantiate(chains, a, b)
+        model, specterm = terms(inst)
+        truth = any(all((PY[op](xv, yv)) != neg for (neg, xv, op, yv) in ch) for ch in inst)
+        callers.append({'rule': rule, 'model': model, 'spec': specterm, 'py_truth': truth})
+    ncond = sum(len(ch) for ch in chains)
+    return {'less': less, 'callers': callers, 'nontrivial': ncond >= 2 or any(c[0] for ch in chains for c in ch) or len(callers) > 1,
+            'key': (less,), 'nch': len(chains), 'ncond': ncond, 'style': style}
 
 
 def gen_exclusive(rng, i):
@@ -100,66 +132,71 @@ def gen_exclusive(rng, i):
         ms.append('([%s], %s)' % ('; '.join(items), coqrun.coq_str(tag)))
     model = '(select_mixin [%s])' % '; '.join(ms)
     want = 'gt' if a > pivot else ('eq' if a == pivot else 'lt')
-    return {'less': less, 'model': model, 'spec': '(Some %s)' % coqrun.coq_str(want), 'exclusive': True, 'nontrivial': True,
-            'key': (less,), 'nch': 3, 'ncond': 3}
+    return {'less': less, 'callers': [{'rule': 'c%d' % i, 'model': model, 'spec': '(Some %s)' % coqrun.coq_str(want)}],
+            'exclusive': True, 'nontrivial': True, 'key': (less,), 'nch': 3, 'ncond': 3, 'style': 'exclusive'}
 
 
-def applied(css, i):
-    m = re.search(r'^\.c%d \{\n width: ([a-z]+);\n\}$' % i, css, re.M)
+def applied(css, rule):
+    m = re.search(r'^\.%s \{\n width: ([a-z]+);\n\}$' % rule, css, re.M)
     return m.group(1) if m else None
 
 
 def run(ctx):
     rng = random.Random(ctx['seed'] * 1000003 + 6)
-    n = (300 if ctx['tier'] == 'quick' else 6000) * ctx.get('mult', 1)
+    n = (220 if ctx['tier'] == 'quick' else 4000) * ctx.get('mult', 1)
     cases = [gen_exclusive(rng, i) if rng.random() < 0.2 else gen_case(rng, i) for i in range(n)]
-    batch = 25
+    batch = 20
     groups = [list(range(k, min(n, k + batch))) for k in range(0, n, batch)]
     with impl.Pool() as pool:
         answers = pool.run([{'kind': 'compile', 'text': ''.join(cases[i]['less'] for i in g), 'opts': {}} for g in groups])
-        res = [None] * n
+        css_of = [None] * n
         redo = []
         for g, a in zip(groups, answers):
             if a.get('r') == 'ok':
                 for i in g:
-                    res[i] = ('ok', applied(a['css'], i))
+                    css_of[i] = ('ok', a['css'])
             else:
                 redo += g
         if redo:
             ans2 = pool.run([{'kind': 'compile', 'text': cases[i]['less'], 'opts': {}} for i in redo])
             for i, a in zip(redo, ans2):
-                res[i] = ('ok', applied(a['css'], i)) if a.get('r') == 'ok' else ('fail', a)
+                css_of[i] = ('ok', a['css']) if a.get('r') == 'ok' else ('fail', a)
     rows = {'m': [], 's': []}
-    for c, r in zip(cases, res):
-        for tag, key in (('m', 'model'), ('s', 'spec')):
-            if r[0] != 'ok':
-                rows[tag].append(('bool', 'false', '"impl failed"%string'))
-            elif c.get('exclusive'):
-                exp = '(Some %s)' % coqrun.coq_str(r[1]) if r[1] else 'None'
-                rows[tag].append(('bool', '(match %s, %s with Some x, Some y => str_eqb x y | None, None => true | _, _ => false end)' % (c[key], exp),
-                                  '(match %s with Some x => string_of_list_ascii x | None => "None"%%string end)' % c[key]))
-            else:
-                exp = 'Some true' if r[1] == 'yes' else 'Some false'
-                rows[tag].append(('bool', '(match %s, %s with Some x, Some y => Bool.eqb x y | _, _ => false end)' % (c[key], exp),
-                                  '(match %s with Some true => "applied" | Some false => "not applied" | None => "error" end)%%string' % c[key]))
-    out = {'evaluations': n, 'spec_mismatch': [], 'model_mismatch': [], 'harness_errors': []}
+    recs = []
+    for c, r in zip(cases, css_of):
+        for cal in c['callers']:
+            got = applied(r[1], cal['rule']) if r[0] == 'ok' else None
+            recs.append({'input': {'less': c['less'], 'rule': cal['rule']}, 'impl': {'applied': got} if r[0] == 'ok' else r[1], 'classes': []})
+            for tag, key in (('m', 'model'), ('s', 'spec')):
+                if r[0] != 'ok':
+                    rows[tag].append(('bool', 'false', '"impl failed"%string'))
+                elif c.get('exclusive'):
+                    exp = '(Some %s)' % coqrun.coq_str(got) if got else 'None'
+                    rows[tag].append(('bool', '(match %s, %s with Some x, Some y => str_eqb x y | None, None => true | _, _ => false end)' % (cal[key], exp),
+                                      '(match %s with Some x => string_of_list_ascii x | None => "None"%%string end)' % cal[key]))
+                else:
+                    exp = 'Some true' if got == 'yes' else 'Some false'
+                    rows[tag].append(('bool', '(match %s, %s with Some x, Some y => Bool.eqb x y | _, _ => false end)' % (cal[key], exp),
+                                      '(match %s with Some true => "applied" | Some false => "not applied" | None => "error" end)%%string' % cal[key]))
+    out = {'evaluations': len(recs), 'spec_mismatch': [], 'model_mismatch': [], 'harness_errors': []}
     wd = os.path.join(ctx['scratch'], 'g%d' % ctx.get('mult', 1))
     bs, ds, es = coqrun.evaluate(rows['s'], ['Spec.GuardSpec'], wd, tag='s')
     bm, dm, em = (coqrun.evaluate(rows['m'], MODS, wd, tag='m') if ctx.get('model_usable', True) else ([], {}, []))
     out['harness_errors'] += es + em
-    for i, (c, r) in enumerate(zip(cases, res)):
-        rec = {'input': {'less': c['less']}, 'impl': {'applied': r[1]} if r[0] == 'ok' else r[1], 'classes': []}
+    for i, rec in enumerate(recs):
         if i in bs:
             rec['spec'] = ds.get(i); out['spec_mismatch'].append(rec)
         elif i in bm:
             rec['model'] = dm.get(i); out['model_mismatch'].append(rec)
     out['distinct_nontrivial'] = len({c['key'] for c in cases if c['nontrivial']})
-    out['samples'] = [{'less': c['less'], 'impl_applied': r[1]} for c, r in list(zip(cases, res))[:5]]
-    dist = {'chains': {}, 'conds': {}, 'exclusive_groups': sum(1 for c in cases if c.get('exclusive')),
-            'guard_true': sum(1 for c in cases if c.get('py_truth')), 'guard_false': sum(1 for c in cases if c.get('py_truth') is False)}
+    out['samples'] = [{'less': c['less']} for c in cases[:5]]
+    dist = {'chains': {}, 'conds': {}, 'style': {}, 'call_sites': len(recs),
+            'guard_true': sum(1 for c in cases for cal in c['callers'] if cal.get('py_truth')),
+            'guard_false': sum(1 for c in cases for cal in c['callers'] if cal.get('py_truth') is False)}
     for c in cases:
         dist['chains'][c['nch']] = dist['chains'].get(c['nch'], 0) + 1
         dist['conds'][c['ncond']] = dist['conds'].get(c['ncond'], 0) + 1
+        dist['style'][c['style']] = dist['style'].get(c['style'], 0) + 1
     out['distribution'] = dist
     return out
 
